@@ -31,6 +31,7 @@ import (
 	"github.com/mdlayher/corerad/internal/netstate"
 	"github.com/mdlayher/corerad/internal/system"
 	"github.com/mdlayher/corerad/internal/verifsim"
+	"github.com/mdlayher/corerad/verifyield"
 	"github.com/mdlayher/metricslite"
 	"github.com/mdlayher/ndp"
 	"github.com/mdlayher/sdnotify"
@@ -705,6 +706,24 @@ func execPlan(t *testing.T, p *Plan, res *verifsim.Result, oracle func(*runInfo)
 		info.startUnixNs = start.UnixNano()
 		w := newWorld(p, res, start)
 		context.VerifCancelSeed = p.Cancel
+		if p.Sched != 0 {
+			// Which of several goroutines runnable in one instant goes first is
+			// the Go scheduler's FIFO by default; with a Sched seed every marked
+			// synchronisation point of internal/corerad, internal/system and
+			// internal/netstate steps back with probability 1/3, in an order that
+			// is a function of the seed alone (one P, no preemption).
+			x := p.Sched
+			verifyield.Hook = func(string) {
+				x += 0x9e3779b97f4a7c15
+				z := x
+				z = (z ^ (z >> 30)) * 0xbf58476d1ce4e5b9
+				z = (z ^ (z >> 27)) * 0x94d049bb133111eb
+				if (z^(z>>31))%3 == 0 {
+					runtime.Gosched()
+				}
+			}
+			defer func() { verifyield.Hook = nil }()
+		}
 		context.VerifSetMapSeed(p.Cancel ^ uint64(p.Offset))
 		system.VerifRtnl = w.rtnl
 		system.VerifLoopbacks = w.loopbacks
